@@ -14,6 +14,7 @@ import (
 	"sync/atomic"
 	"time"
 
+	"github.com/samsarahq/thunder/reactive"
 	"verifharness/pkg/vh"
 )
 
@@ -102,72 +103,86 @@ func Main(prop string) {
 	outs := make([]*caseOut, len(cases))
 	var lost int32
 	workers := 6
-	var wg sync.WaitGroup
-	next := make(chan int, len(cases))
-	for i := range cases {
-		next <- i
+	// reactive.WriteThenReadDelay is a package variable: the cases are run in groups of equal delay
+	delays := map[int][]int{}
+	var delayKeys []int
+	for i, c := range cases {
+		if _, ok := delays[c.DelayMs]; !ok {
+			delayKeys = append(delayKeys, c.DelayMs)
+		}
+		delays[c.DelayMs] = append(delays[c.DelayMs], i)
 	}
-	close(next)
-	for w := 0; w < workers; w++ {
-		wg.Add(1)
-		go func() {
-			defer wg.Done()
-			for i := range next {
-				co := &caseOut{}
-				func() {
-					defer func() {
-						if e := recover(); e != nil {
-							co.res = &Result{Case: cases[i]}
-							co.fs = append(co.fs, Finding{"harness-panic", fmt.Sprint(e)})
-						}
-					}()
-					to := timeout
-					if n := atomic.LoadInt32(&lost); n >= 8 {
-						// the connection hangs again and again: the verdict is settled, do not spend the time
-						co.res = &Result{Case: cases[i]}
-						co.skipped = true
-						return
-					} else if n >= 3 {
-						to = 2 * time.Second
-					}
-					co.res = RunCase(cases[i], to)
-					stalled := func(r *Result) bool {
-						for _, p := range r.Problems {
-							if p.Sig == "harness-wait-timeout" {
-								return true
+	sort.Ints(delayKeys)
+	for _, dk := range delayKeys {
+		reactive.WriteThenReadDelay = time.Duration(dk) * time.Millisecond
+		var wg sync.WaitGroup
+		next := make(chan int, len(cases))
+		for _, i := range delays[dk] {
+			next <- i
+		}
+		close(next)
+		for w := 0; w < workers; w++ {
+			wg.Add(1)
+			go func() {
+				defer wg.Done()
+				for i := range next {
+					co := &caseOut{}
+					func() {
+						defer func() {
+							if e := recover(); e != nil {
+								co.res = &Result{Case: cases[i]}
+								co.fs = append(co.fs, Finding{"harness-panic", fmt.Sprint(e)})
 							}
+						}()
+						to := timeout
+						if n := atomic.LoadInt32(&lost); n >= 8 {
+							// the connection hangs again and again: the verdict is settled, do not spend the time
+							co.res = &Result{Case: cases[i]}
+							co.skipped = true
+							return
+						} else if n >= 3 {
+							to = 2 * time.Second
 						}
-						return false
-					}
-					if stalled(co.res) && atomic.LoadInt32(&lost) < 3 {
-						// A wait that times out is reported as a failure only if it does so twice: the case is
-						// played once more on a fresh connection.  (Seen once in ~30 000 cases on a loaded box and
-						// never reproduced; a deadlock caused by the code under test reproduces and is reported,
-						// with the goroutines that were inside thunder.)  Counted in the histogram either way.
-						first := co.res
-						co.stalls = 1
 						co.res = RunCase(cases[i], to)
-						if stalled(co.res) {
-							co.stalls = 2
-							atomic.AddInt32(&lost, 1)
-						} else {
-							co.stallDetail = first.Problems[0].Detail
+						stalled := func(r *Result) bool {
+							for _, p := range r.Problems {
+								if p.Sig == "harness-wait-timeout" {
+									return true
+								}
+							}
+							return false
 						}
-					} else if stalled(co.res) {
-						atomic.AddInt32(&lost, 1)
-					}
-					if prop == "C17" {
-						co.fs = OracleC17(co.res)
-					} else {
-						co.fs = OracleC02(co.res)
-					}
-					co.trace = BuildTrace(co.res)
-				}()
-				outs[i] = co
-			}
-		}()
+						if stalled(co.res) && atomic.LoadInt32(&lost) < 3 {
+							// A wait that times out is reported as a failure only if it does so twice: the case is
+							// played once more on a fresh connection.  (Seen once in ~30 000 cases on a loaded box and
+							// never reproduced; a deadlock caused by the code under test reproduces and is reported,
+							// with the goroutines that were inside thunder.)  Counted in the histogram either way.
+							first := co.res
+							co.stalls = 1
+							co.res = RunCase(cases[i], to)
+							if stalled(co.res) {
+								co.stalls = 2
+								atomic.AddInt32(&lost, 1)
+							} else {
+								co.stallDetail = first.Problems[0].Detail
+							}
+						} else if stalled(co.res) {
+							atomic.AddInt32(&lost, 1)
+						}
+						if prop == "C17" {
+							co.fs = OracleC17(co.res)
+						} else {
+							co.fs = OracleC02(co.res)
+						}
+						co.trace = BuildTrace(co.res)
+					}()
+					outs[i] = co
+				}
+			}()
+		}
+		wg.Wait()
 	}
-	wg.Wait()
+	reactive.WriteThenReadDelay = 0
 
 	// merge.ts client: one node process for all streams
 	type key struct{ c, g int }
